@@ -13,6 +13,20 @@ def rand_ranks(rng, n):
     return P
 
 
+def opposed_ranks(rng, n, noise):
+    """opposed interests: woman j likes man i the more, the lower she stands in HIS list (plus noise). Such instances have many
+    stable matchings and many rotations (about n of them for n = 8), and rotations that move a man past several women at once"""
+    P1 = rand_ranks(rng, n)
+    P2 = []
+    for j in range(n):
+        order = [i for _, i in sorted((-(P1[i][j]) + rng.random() * noise, i) for i in range(n))]
+        r = [0] * n
+        for k, i in enumerate(order):
+            r[i] = k + 1
+        P2.append(r)
+    return P1, P2
+
+
 def vals_agreeing(rng, P, lo=0, hi=9, ties=True):
     """integer valuations weakly (ties) or strictly decreasing along each ranking"""
     n = len(P)
